@@ -320,6 +320,11 @@ func runC16(r *Run) {
 			if werr == nil || w.Len() > 0 {
 				r.Fail("PackTCPBuffer framed a message longer than 65535 bytes", desc)
 			}
+			outP := "refused"
+			if bp, err := pool.PackTCPBuffer(m); err == nil {
+				outP = "ok " + sum16(*bp)
+			}
+			r.Line("packtcp "+hx(wire), outP)
 			continue
 		}
 		want := append([]byte{byte(len(wire) >> 8), byte(len(wire))}, wire...)
@@ -332,6 +337,18 @@ func runC16(r *Run) {
 		bp, err := pool.PackTCPBuffer(m)
 		if err != nil || !bytes.Equal(*bp, want) {
 			r.Fail("PackTCPBuffer did not produce length header + packed message", desc)
+		}
+		// the same packed bytes through the regenerated packTCPBuffer / packBuffer of the model
+		outP := "refused"
+		if err == nil {
+			outP = "ok " + sum16(*bp)
+		}
+		r.Line("packtcp "+hx(wire), outP)
+		if ub, uerr := pool.PackBuffer(m); uerr == nil {
+			r.Line("packudp "+hx(wire), "ok "+sum16(*ub))
+			if !bytes.Equal(*ub, wire) {
+				r.Fail("PackBuffer did not hand out the packed message unchanged", desc)
+			}
 		}
 	}
 
